@@ -327,6 +327,11 @@ func busyServerGoroutineOpt(allowBlocked bool) string {
 		stackBuf = make([]byte, 2*len(stackBuf))
 	}
 	for _, blk := range strings.Split(string(stackBuf[:n]), "\n\n") {
+		if strings.Contains(blk, "stack unavailable") {
+			// "goroutine running on other thread; stack unavailable": it could be a server goroutine
+			// in the middle of a step - not settled, look again
+			return strings.SplitN(blk, "\n", 2)[0] + " (stack unavailable)"
+		}
 		if !strings.Contains(blk, serverPkg) {
 			continue
 		}
@@ -348,7 +353,12 @@ func busyServerGoroutineOpt(allowBlocked bool) string {
 		top := lines[1]
 		parked := st == "select" || st == "chan receive"
 		direct := strings.HasPrefix(top, serverPkg) || strings.HasPrefix(top, selfPkg+"(*Eth).RecvPacket")
-		if allowBlocked && (strings.HasPrefix(st, "sync.") || st == "semacquire") {
+		if allowBlocked && (strings.HasPrefix(st, "sync.") || st == "semacquire") && !strings.Contains(blk, "runtime.gc") &&
+			(strings.Contains(blk, "sync.(*Mutex).Lock") || strings.Contains(blk, "sync.(*RWMutex).RLock") ||
+				strings.Contains(blk, "sync.(*RWMutex).Lock") || strings.Contains(blk, "sync.(*WaitGroup).Wait")) {
+			// really waiting for a lock / wait group of the program. (A goroutine that is about to start
+			// a GC cycle also shows "semacquire" - it waits for the world semaphore this very stack dump
+			// holds - and will go on at once: that one is not settled.)
 			continue
 		}
 		if !(parked && direct) {
